@@ -99,6 +99,19 @@ def op_stored_present(delta):
     return f
 
 
+def op_stored_abs(v):
+    def f(ast, i, key, info):
+        ast["entries"][i]["stored"] = v
+    return f
+
+
+def op_both_abs(v):
+    def f(ast, i, key, info):
+        ast["entries"][i]["stored"] = v
+        ast["entries"][i]["declared"] = v
+    return f
+
+
 def op_declared(fn):
     def f(ast, i, key, info):
         e = ast["entries"][i]
@@ -264,6 +277,10 @@ ENTRY_OPS = [
     ("stored+1-present", op_stored_present(1), "plain"), ("stored-1-present", op_stored_present(-1), "plain2"),
     ("declared=stored+1", op_declared(lambda e: e["stored"] + 1), None),
     ("declared=1", op_declared(lambda e: 1), None), ("declared=stored", op_declared(lambda e: e["stored"]), None),
+    # 32-bit fields with the top bit set (a reader that decodes them as signed numbers sees negative lengths / addresses)
+    ("declared=2^31", op_declared(lambda e: 0x80000000), None), ("declared=2^32-1", op_declared(lambda e: 0xFFFFFFFF), None),
+    ("stored=2^32-1", op_stored_abs(0xFFFFFFFF), None), ("stored,declared=2^32-1", op_both_abs(0xFFFFFFFF), None),
+    ("stored=2^31", op_stored_abs(0x80000000), None), ("adr+2^31", op_adr(0x80000000), None),
     ("dup-tag", op_dup_tag, "tags"), ("dup-tag-other-value", op_dup_tag_other_value, "tags"), ("add-tag", op_add_tag, None),
     ("dup-tag-empty-first", op_dup_empty_first, "room"), ("dup-tag-zero-value", op_dup_zero_value, "room"), ("add-empty-tag", op_add_empty_tag, None),
     ("taglen+1", op_taglen(1), "tags"), ("taglen-1", op_taglen(-1), "tagval"),
